@@ -97,6 +97,9 @@ def dt_class(spec):
     return "zoned"
 
 
+OFFSETS = True   # C04 switches this off: utcoffset() of a zone built from a hostile VTIMEZONE may not terminate
+
+
 def describe(obj):
     """A hash-seed independent, library-free description of a Python value.
 
@@ -112,7 +115,9 @@ def describe(obj):
     if isinstance(obj, datetime):
         off = None
         name = None
-        if obj.tzinfo is not None:
+        if obj.tzinfo is not None and not OFFSETS:
+            name = tz_label(obj.tzinfo)
+        elif obj.tzinfo is not None:
             try:
                 o = obj.utcoffset()
                 off = None if o is None else int(o.total_seconds())
